@@ -502,7 +502,15 @@ fn check_wit_case(ctx: &mut Ctx, case: u64, rng: &mut Rng) {
             })
             .unwrap();
         if canon != *highest {
-            ctx.violation(case, "C09:canonical-not-highest", format!("canonical name of `{name}` is `{canon}`, highest contributed version is `{highest}`"), input.clone());
+            // the recorded finding (a `use` dependency on another version of an interface that is also
+            // aggregated under a compatible name is merged without the keep-highest rule) has this
+            // consequence too: inside its zone the deviation is reported under its signature
+            let sig = if cross_version_use_among_all(&contributors) {
+                "C09:wit:names-depend-on-order:use-dependency-on-another-version-of-a-merged-interface"
+            } else {
+                "C09:canonical-not-highest"
+            };
+            ctx.violation(case, sig, format!("canonical name of `{name}` is `{canon}`, highest contributed version is `{highest}`"), input.clone());
         }
         let mut cache = HashSet::new();
         if let Err(e) = SubtypeChecker::new(&mut cache).is_subtype(merged, agg.types(), *kind, types) {
@@ -514,7 +522,46 @@ fn check_wit_case(ctx: &mut Ctx, case: u64, rng: &mut Rng) {
     ctx.shape_str(&format!("wit:{:?}", contributors.iter().map(|c| c.0.clone()).collect::<Vec<_>>()));
 }
 
+/// Zone of the recorded C09 finding over a whole contributor list: some contributor `use`s (directly
+/// or transitively) a version of an interface that differs from a compatible version named by
+/// another contributor or used by one.
+fn cross_version_use_among_all(contributors: &[(String, Types, ItemKind)]) -> bool {
+    let mut used: Vec<String> = Vec::new();
+    for (_, t, k) in contributors {
+        let mut stack = match k {
+            ItemKind::Instance(id) => vec![*id],
+            _ => vec![],
+        };
+        let mut seen = Vec::new();
+        while let Some(id) = stack.pop() {
+            if seen.contains(&id) {
+                continue;
+            }
+            seen.push(id);
+            for u in t[id].uses.values() {
+                if let Some(n) = &t[u.interface].id {
+                    if !used.contains(n) {
+                        used.push(n.clone());
+                    }
+                }
+                stack.push(u.interface);
+            }
+        }
+    }
+    let named: Vec<&String> = contributors.iter().map(|c| &c.0).collect();
+    used.iter().any(|u| named.iter().copied().chain(used.iter()).any(|o| o != u && model_compatible(o, u)))
+}
+
 pub fn run(ctx: &mut Ctx) {
+    // replay of one case of the WIT-derived workload (its cases are numbered from WITNESS_BASE / 2)
+    if let Some(c) = ctx.only_case {
+        if c >= crate::witness::WITNESS_BASE / 2 {
+            ctx.begin(c);
+            let mut rng = ctx.rng(c);
+            check_wit_case(ctx, c, &mut rng);
+            return;
+        }
+    }
     let wit_total = ctx.n(2_000, 600_000);
     for case in ctx.cases(wit_total) {
         // leave at least half of the time budget to the shaped workload below
